@@ -3,6 +3,7 @@ import CookModel.Syntax.CharTable
 import CookModel.Driver.Render
 import CookModel.Analysis.Collector
 import CookModel.Side.StdMeta
+import CookModel.Analysis.FrontMatter
 import CookModel.Num.Convert
 namespace Cook.Driver
 open Cook Proto
@@ -30,11 +31,8 @@ def realEnv (ext conv : Nat) : Env where
   cs := realCharSpec
   ext := ⟨ext⟩
   findUnit := if conv == 0 then fun _ => none else bundledFindUnit
-  stdCheck := fun k v =>
-    match SM.checkStdEntry (if conv == 0 then emptySM else bundledSM) uniAlpha (toSMKey k) (.str v) with
-    | none => .rejected
-    | some none => .ok
-    | some (some l) => .servings l
+  -- `check_std_entry` on a `>>` value: the C13 model (`FM.stdCheckOfSM`, Analysis/FrontMatter.lean)
+  stdCheck := FM.stdCheckOfSM (if conv == 0 then emptySM else bundledSM) uniAlpha
   fold := realFold
   timeQ := 4
 
